@@ -51,7 +51,72 @@ def run_all(repo):
     return out
 
 
+def scratch_tree(patch):
+    """-> (dir, applied): a scratch copy of /repo's package under /tmp with `patch` applied (no git worktree: safe to do in
+    parallel).  The caller removes it."""
+    wt = tempfile.mkdtemp(prefix="seedrun_", dir="/tmp")
+    subprocess.run(["cp", "-r", "/repo/asimap", os.path.join(wt, "asimap")], check=True)
+    r = subprocess.run(["git", "apply", "--include=asimap/*", patch], cwd=wt, capture_output=True, text=True)
+    applied = "clean"
+    if r.returncode != 0:
+        r = subprocess.run(["patch", "-p1", "-f", "--fuzz=3", "--no-backup-if-mismatch", "-r", "-", "-i", patch], cwd=wt, capture_output=True, text=True)
+        applied = "fuzzy" if r.returncode == 0 else "FAILED"
+    return wt, applied, (r.stdout + r.stderr)[-300:]
+
+
+def judge_patch(args):
+    sid, patch, base = args
+    wt, applied, note = scratch_tree(patch)
+    try:
+        if applied == "FAILED":
+            return sid, {"applied": applied, "note": note}
+        for f in os.listdir(os.path.join(wt, "asimap")):
+            if f.endswith(".py"):
+                try:
+                    compile(open(os.path.join(wt, "asimap", f)).read(), f, "exec")
+                except SyntaxError as e:
+                    return sid, {"applied": "NO-COMPILE", "note": str(e)}
+        res = run_all(wt)
+        res = {k: v for k, v in res.items() if v != base.get(k)}
+        return sid, {"applied": applied, "detected_by": sorted(res), "own_property_detects": sid.split("-")[0] in res, "reports": {k: [x[:260] for x in v[:3]] for k, v in res.items()}}
+    finally:
+        subprocess.run(["rm", "-rf", wt])
+
+
+def main_parallel(ids, jobs):
+    from concurrent.futures import ProcessPoolExecutor
+
+    base = run_all("/repo")
+    if base:
+        print("WARNING: unchanged tree is not clean:", {k: len(v) for k, v in base.items()})
+    work = []
+    for sid in ids:
+        patch = f"{V}/seeded/{sid}/patch.diff"
+        if not os.path.exists(patch):
+            continue
+        ported = f"{V}/seeded/{sid}/patch_fixed_tree.diff"
+        work.append((sid, ported if os.path.exists(ported) else patch, base))
+    matrix = {}
+    with ProcessPoolExecutor(max_workers=jobs) as pool:
+        for sid, m in pool.map(judge_patch, work):
+            matrix[sid] = m
+            res = m.get("detected_by")
+            print(sid, m["applied"], ("DETECTED by " + ",".join(res)) if res else "MISSED")
+    return matrix
+
+
 def main():
+    if "--jobs" in sys.argv:
+        i = sys.argv.index("--jobs")
+        jobs = int(sys.argv[i + 1])
+        del sys.argv[i:i + 2]
+        ids = sys.argv[1:] or sorted(d for d in os.listdir(f"{V}/seeded") if os.path.isdir(f"{V}/seeded/{d}"))
+        matrix = main_parallel(ids, jobs)
+        if not sys.argv[1:]:
+            json.dump(matrix, open(f"{V}/seeded/MATRIX.json", "w"), indent=1)
+        det = sum(1 for v in matrix.values() if v.get("detected_by"))
+        print(f"{det}/{len(matrix)} seeded defects detected")
+        return
     ids = sys.argv[1:] or sorted(d for d in os.listdir(f"{V}/seeded") if os.path.isdir(f"{V}/seeded/{d}"))
     base = run_all("/repo")
     if base:
